@@ -40,6 +40,14 @@ type FuncVal struct {
 	native func(e *Engine, st *State, args []Val) Val
 }
 type TupleVal struct{ v []Val }
+
+// ChanObj is a channel of the sequentialised goroutine model (heap object;
+// a channel value is a PtrVal to it).
+type ChanObj struct {
+	buf    []Val
+	cap    int
+	closed bool
+}
 type MapVal struct{ obj int } // 0 = nil map
 type MapObj struct {
 	keys, vals []Val
@@ -182,6 +190,7 @@ type State struct {
 	knownIn []string // ids of known-finding regions this path is inside
 	panicOK bool
 	mapMode int
+	mapUsed bool // a non-default map iteration order was selected on this path
 	writerN int // C19: index of next harness-writer call
 	siteCtr int // per-path counter naming fork sites
 	reached []string
